@@ -38,7 +38,7 @@ def obligations(rep, accs, tier, sd, wd):
     if r.distinct != 2 * total:
         raise MachineryError('AccOblig: expected %d states, TLC found %d\n%s' % (2 * total, r.distinct, r.out[-2000:]))
     rep.add_tlc(r, 'AccOblig')
-    rep.extra['obligations'] = dict(accelerators=len(accs), counter_values=len(cvs), a_values=len(avs), ks=inp['ks'], xs=inp['xs'],
+    rep.extra['obligation_space'] = dict(accelerators=len(accs), counter_values=len(cvs), a_values=len(avs), ks=inp['ks'], xs=inp['xs'],
                                     enumerated_by_tlc=total)
     for code, clause in sorted(set(r.fails)):
         ai, cv = code // 1000, code % 1000
